@@ -201,6 +201,9 @@ impl Report {
         for (k, v) in &self.obs {
             obs.set(k, *v);
         }
+        if crate::panics::unwound_calls() > 0 {
+            obs.set("guarded_calls_made_from_a_destructor_while_the_thread_unwinds", crate::panics::unwound_calls());
+        }
         o.set("obs", obs);
         o.set("notes", self.notes.clone());
         o.set("inconclusive", self.inconclusive.clone());
